@@ -323,7 +323,7 @@ def run(ctx, res):
                 if fa['ambiguous'] or fb_['ambiguous']:
                     counters['skipped_ambiguous'] += 1
                     continue
-                if fa['piece_boundary'] or fa['last_word_escape'] or fb_['piece_boundary'] or fb_['last_word_escape']:
+                if fa['piece_boundary'] or fb_['piece_boundary']:
                     counters['skipped_c01_mechanism'] += 1
                     continue
                 if ws or pre:
